@@ -716,6 +716,8 @@ func (e *Engine) eval(x Expr, env *evalEnv) Val {
 			srt, vt = "Str", types.Typ[types.String]
 		case "bool":
 			srt, vt = "Bool", specBool
+		case "addr":
+			srt, vt = "Addr", addrT
 		}
 		e.qn++
 		bv := fmt.Sprintf("%s_q%d", mangle(y.Var), e.qn)
@@ -872,6 +874,14 @@ func (e *Engine) indexOf(base, idx Val, env *evalEnv) Val {
 	if base.T == seqT {
 		return Val{S: app("seq_at", base.S, idx.S), T: specInt}
 	}
+	if base.G != nil {
+		switch base.G.kind {
+		case "bank":
+			return Val{S: app("select", base.S, idx.S), T: specInt}
+		case "map":
+			return Val{S: app("select", base.S, e.specKey(idx, env)), T: base.G.vt}
+		}
+	}
 	if strings.HasPrefix(e.sortOfVal(base), "(Array") {
 		return Val{S: app("select", base.S, idx.S), T: base.specElem()}
 	}
@@ -966,13 +976,17 @@ func (e *Engine) evalCall(y *ECall, env *evalEnv) Val {
 			return v
 		}
 	case "has":
-		// has(m, k): key present in a Go map
-		m, k := arg(0), arg(1)
-		if mt, ok := types.Unalias(m.T).Underlying().(*types.Map); ok {
-			_, _, dn, ds := e.vc.mapHeapName(mt.Key(), mt.Elem())
-			return Val{S: app("select", app("select", e.heap(env.st, dn, ds), m.S), k.S), T: specBool}
+		// has(m, k): key present in a Go map (ghost stores are handled by specFunc)
+		if len(y.Args) == 2 {
+			m := arg(0)
+			if m.G == nil && m.T != nil {
+				if mt, ok := types.Unalias(m.T).Underlying().(*types.Map); ok {
+					k := arg(1)
+					_, _, dn, ds := e.vc.mapHeapName(mt.Key(), mt.Elem())
+					return Val{S: app("select", app("select", e.heap(env.st, dn, ds), m.S), k.S), T: specBool}
+				}
+			}
 		}
-		return e.evalErr("has on non-map")
 	case "isnil":
 		return Val{S: e.isNil(arg(0)), T: specBool}
 	case "typeis":
